@@ -247,7 +247,7 @@ func (p *pki) tstInfo(imprint []byte) []byte {
 // hexLen is the number of hex digits reserved for /Contents (adbe.x509.rsa_sha1 does not tolerate padding:
 // the value is a bare DER OCTET STRING holding the 2048-bit PKCS#1 signature).
 func hexLen(kind string) int {
-	if kind == "x509" {
+	if parseKind(kind).Profile == "x509" {
 		return 2 * (4 + 256)
 	}
 	return 8192
@@ -257,6 +257,37 @@ func hexLen(kind string) int {
 type sdoc struct {
 	Kind  string // pkcs7 | cades | sha1 | x509 | dts
 	Bytes []byte
+}
+
+// A kind names the signature of a synthetic document: <profile>[@<dict type>][#ur3].
+//
+//	profile   pkcs7 | cades | sha1 | x509 | dts : the /SubFilter and the matching signature value
+//	dict type /Type of the signature dictionary: Sig or DocTimeStamp (default: DocTimeStamp for dts, else Sig)
+//	#ur3      the signature dictionary is the DIRECT value of /Perms /UR3 in the catalog (usage rights signature)
+//	          instead of the /V of a signature field
+type kindSpec struct {
+	Profile, DictType string
+	UR3               bool
+}
+
+func parseKind(kind string) kindSpec {
+	k := kindSpec{}
+	if i := strings.Index(kind, "#"); i >= 0 {
+		k.UR3 = kind[i+1:] == "ur3"
+		kind = kind[:i]
+	}
+	if i := strings.Index(kind, "@"); i >= 0 {
+		k.DictType = kind[i+1:]
+		kind = kind[:i]
+	}
+	k.Profile = kind
+	if k.DictType == "" {
+		k.DictType = "Sig"
+		if k.Profile == "dts" {
+			k.DictType = "DocTimeStamp"
+		}
+	}
+	return k
 }
 
 var subFilter = map[string]string{
@@ -299,23 +330,31 @@ func (p *pki) unsignedPDF(kind string, pages int, tail string, o docOpts) []byte
 	if o.Pad > 0 {
 		d.AddStream("/Type /VerifPad", padData(o.Pad))
 	}
+	ks := parseKind(kind)
+	extra := ""
+	if ks.Profile == "x509" {
+		extra = " /Cert [<" + hex.EncodeToString(p.leaf.Raw) + "> <" + hex.EncodeToString(p.ca.Raw) + ">]"
+	}
+	sigBody := fmt.Sprintf("<< /Type /%s /Filter /Adobe.PPKLite /SubFilter /%s%s /M (D:20260101000000Z)%%s /ByteRange [%s] /Contents <%s> >>",
+		ks.DictType, subFilter[ks.Profile], extra, strings.Repeat(" ", 43), strings.Repeat("0", hexLen(kind)))
+	cat := d.Objs[d.Root-1]
+	if ks.UR3 {
+		ref := " /Reference [<< /Type /SigRef /TransformMethod /UR3 /TransformParams << /Type /TransformParams /V /2.2 /Document [/FullSave] >> >>]"
+		// the validator only looks at usage rights when the form announces signatures (/SigFlags bit 1); pdfcpu drops an
+		// AcroForm without fields, so the form carries one text field
+		tx := d.Add("<< /Type /Annot /Subtype /Widget /FT /Tx /T (note) /Rect [20 100 120 130] /F 4 /P 5 0 R /DA (/Helv 10 Tf 0 g) >>")
+		d.Set(5, strings.TrimSuffix(d.Objs[4], " >>")+fmt.Sprintf(" /Annots [%d 0 R] >>", tx))
+		d.Set(d.Root, strings.TrimSuffix(cat, " >>")+fmt.Sprintf(" /AcroForm << /Fields [%d 0 R] /SigFlags 1 /DA (/Helv 10 Tf 0 g) /DR << /Font << /Helv 2 0 R >> >> >>", tx)+
+			" /Perms << /UR3 "+fmt.Sprintf(sigBody, ref)+" >> >>")
+		return append(d.Bytes(), tail...)
+	}
 	field := d.Reserve()
 	sigd := d.Reserve()
 	firstPage := 5
-	typ := "Sig"
-	extra := ""
-	switch kind {
-	case "dts":
-		typ = "DocTimeStamp"
-	case "x509":
-		extra = " /Cert [<" + hex.EncodeToString(p.leaf.Raw) + "> <" + hex.EncodeToString(p.ca.Raw) + ">]"
-	}
 	d.Set(field, fmt.Sprintf("<< /Type /Annot /Subtype /Widget /FT /Sig /T (Signature1) /Rect [0 0 0 0] /F 132 /P %d 0 R /V %d 0 R >>", firstPage, sigd))
-	d.Set(sigd, fmt.Sprintf("<< /Type /%s /Filter /Adobe.PPKLite /SubFilter /%s%s /M (D:20260101000000Z) /ByteRange [%s] /Contents <%s> >>",
-		typ, subFilter[kind], extra, strings.Repeat(" ", 43), strings.Repeat("0", hexLen(kind))))
+	d.Set(sigd, fmt.Sprintf(sigBody, ""))
 	pg := d.Objs[firstPage-1]
 	d.Set(firstPage, strings.TrimSuffix(pg, " >>")+fmt.Sprintf(" /Annots [%d 0 R] >>", field))
-	cat := d.Objs[d.Root-1]
 	d.Set(d.Root, strings.TrimSuffix(cat, " >>")+fmt.Sprintf(" /AcroForm << /Fields [%d 0 R] /SigFlags 3 >> >>", field))
 	return append(d.Bytes(), tail...)
 }
@@ -358,11 +397,12 @@ func (p *pki) signOpts(kind string, pages int, tail string, rs rangeSpec, o docO
 	copy(b[g.BRPos:], br)
 	// The ranges may reach into the hex string by at most 2 characters on each side: those characters are constant
 	// ('<', '3' of the leading 0x30 and the padding '0', '>'), so the signed bytes do not depend on the signature.
-	if e1 > g.GapLo+2 || c < g.GapHi-2 || (kind == "x509" && c < g.GapHi-1) {
+	prof := parseKind(kind).Profile
+	if e1 > g.GapLo+2 || c < g.GapHi-2 || (prof == "x509" && c < g.GapHi-1) {
 		return nil, g, fmt.Errorf("ranges would cover the signature value")
 	}
 	first := byte('3') // 0x30 SEQUENCE
-	if kind == "x509" {
+	if prof == "x509" {
 		first = '0' // 0x04 OCTET STRING
 	}
 	b[g.GapLo+1] = first
@@ -384,10 +424,10 @@ func (p *pki) signOpts(kind string, pages int, tail string, rs rangeSpec, o docO
 		return s
 	}()
 	var val []byte
-	switch kind {
+	switch prof {
 	case "pkcs7", "cades":
 		dg := sha256.Sum256(signed)
-		val = p.cms(cmsOpts{cert: p.leaf, contentType: oData, msgDigest: dg[:], essV2: kind == "cades"})
+		val = p.cms(cmsOpts{cert: p.leaf, contentType: oData, msgDigest: dg[:], essV2: prof == "cades"})
 	case "sha1":
 		d1 := sha1.Sum(signed)
 		dg := sha256.Sum256(d1[:])
@@ -408,7 +448,7 @@ func (p *pki) signOpts(kind string, pages int, tail string, rs rangeSpec, o docO
 		return nil, g, fmt.Errorf("unknown kind %s", kind)
 	}
 	hx := strings.ToUpper(hex.EncodeToString(val))
-	if len(hx) > hexLen(kind)-4 && !(kind == "x509" && len(hx) == hexLen(kind)) {
+	if len(hx) > hexLen(kind)-4 && !(prof == "x509" && len(hx) == hexLen(kind)) {
 		return nil, g, fmt.Errorf("signature value size %d does not fit %d", len(hx), hexLen(kind))
 	}
 	if hx[0] != first {
